@@ -576,7 +576,24 @@ func r14e(c *core.Ctx) {
 		}
 		var dial ssa.CallInstruction
 		for _, call := range core.Calls(fn) {
-			if core.StaticCallee(call) == nil && !call.Common().IsInvoke() && strings.Contains(core.Expr(call.Common().Value), "DialContext") {
+			if core.StaticCallee(call) != nil || call.Common().IsInvoke() {
+				continue
+			}
+			isDial := strings.Contains(core.Expr(call.Common().Value), "DialContext")
+			if !isDial {
+				// the dial function reached through a local or a captured variable (`dial := opts.DialContext`)
+				for _, o := range core.Origins(call.Common().Value, core.OriginOpts{Prog: c.Prog}) {
+					if u, ok := o.(*ssa.UnOp); ok && u.Op == token.MUL {
+						if fa, ok := u.X.(*ssa.FieldAddr); ok && strings.HasPrefix(core.FieldAddrRef(fa).Name, "Dial") {
+							isDial = true
+						}
+					}
+					if f, ok := o.(*ssa.Field); ok && strings.HasPrefix(core.FieldValRef(f).Name, "Dial") {
+						isDial = true
+					}
+				}
+			}
+			if isDial {
 				dial = call
 			}
 		}
@@ -586,7 +603,7 @@ func r14e(c *core.Ctx) {
 		}
 		n++
 		e := core.Expr(dial.Common().Args[0])
-		c.Check(strings.HasPrefix(e, "context.WithTimeout(") && strings.Contains(e, spec.want), "dial-timeout:"+spec.fn, dial.Pos(), fn, "the dial runs under context.WithTimeout(…, dialTimeout())", e)
+		c.Check(strings.HasPrefix(e, "context.WithTimeout(") && strings.Contains(e, strings.TrimPrefix(spec.want, "t")), "dial-timeout:"+spec.fn, dial.Pos(), fn, "the dial runs under context.WithTimeout(…, dialTimeout())", e)
 	}
 	// dialTimeout defaults
 	for _, t := range []string{"PipelineTransport", "ReuseConnTransport", "QuicTransport"} {
